@@ -93,9 +93,10 @@ def withByteOffset1 (p : Pos) (off : Nat) (f : Pos → Res Pos) : Res Pos := do
   let q ← f { p with byte := b }
   .ok { q with byte := q.byte + off }
 
+/-- `SourceText::end_position` (repaired: measured from the start's page position). -/
 def endPosition (src : Source) : Res Pos := do
-  let e ← Tephra.endPosition src.metrics src.text Pos.zero
-  .ok (src.offset.shifted e)
+  let e ← Tephra.endPosition src.metrics src.text ⟨0, src.offset.line, src.offset.col⟩
+  .ok { e with byte := e.byte + src.offset.byte }
 
 def startPosition (src : Source) : Pos := src.offset
 
@@ -112,8 +113,11 @@ def previousPosition (src : Source) (p : Pos) : Res (Option Pos) :=
 def lineEndPosition (src : Source) (p : Pos) : Res Pos :=
   withByteOffset1 p src.offset.byte (Tephra.lineEndPosition src.metrics src.text)
 
-def lineStartPosition (src : Source) (p : Pos) : Res Pos :=
-  withByteOffset1 p src.offset.byte (Tephra.lineStartPosition src.metrics src.text)
+/-- `SourceText::line_start_position` (repaired: the start of the text is the
+text's start position, not column 0). -/
+def lineStartPosition (src : Source) (p : Pos) : Res Pos := do
+  let r ← withByteOffset1 p src.offset.byte (Tephra.lineStartPosition src.metrics src.text)
+  .ok (if r.byte = src.offset.byte then src.offset else r)
 
 def previousLineEndPosition (src : Source) (p : Pos) : Res (Option Pos) :=
   withByteOffset p src.offset.byte (Tephra.previousLineEndPosition src.metrics src.text)
